@@ -1578,6 +1578,15 @@ def constfold(fn):
                     n.clear()
                     n.update({"k": "lit", "t": "unsigned long" if "size_t" in (t0 or "") or "unsigned" in (t0 or "") else "int", "v": v, "ln": ln, "type": t0, "bits": b0})
                     continue
+                if len(n.get("args", [])) == 1 and nm in ("std::addressof", "std::__addressof") and (fn.file or "").startswith("/repo/"):
+                    # std::addressof(x) is &x for every type without an overloaded operator& (none of /repo's classes has one): read as the built-in
+                    a = n["args"][0]
+                    ln, t0 = n.get("ln"), n.get("type")
+                    n.clear()
+                    n.update({"k": "un", "op": "&", "e": a, "ln": ln})
+                    if t0 is not None:
+                        n["type"] = t0
+                    continue
                 if len(n.get("args", [])) == 1 and (nm.endswith("char_traits<char>::length") or nm in ("strlen", "std::strlen")):
                     a = ir.unwrap(n["args"][0])
                     while isinstance(a, dict) and a.get("k") == "cast":
